@@ -7,6 +7,7 @@ Local Open Scope N_scope.
 Definition getb (o : option bool) : bool := match o with Some b => b | None => false end.
 Definition rb : bool := getb Gen_Read.read_all_drains_buffer.
 Definition sg : bool := getb Gen_Read.stream_checks_progress.
+Definition fe : bool := getb Gen_Read.read_flushes_at_end.
 
 Definition as_call (s : sexp) : option call :=
   match s with
@@ -36,7 +37,7 @@ Definition run (c : sexp) : sexp :=
       match as_str raw, as_list_of as_nat tbl, as_str full, as_bool hd, as_bool dc, as_bool ch, as_list_of as_nat chunks,
             as_list_of as_call calls, as_finish fin, as_list_of as_nat tape with
       | Some raw, Some tbl, Some full, Some hd, Some dc, Some ch, Some chunks, Some calls, Some fin, Some tape =>
-          let '(ps, fs) := ReadBody.run (mkDec tbl full) hd dc rb sg ch raw chunks tape calls fin in
+          let '(ps, fs) := ReadBody.run (mkDec tbl full) hd dc rb sg fe ch raw chunks tape calls fin in
           SL [s_pieces ps; s_pieces fs; s_list s_nat tape]
       | _, _, _, _, _, _, _, _, _, _ => s_bad_case
       end
